@@ -294,6 +294,67 @@ def constant_pass_contract(fns, consts):
     return O._finish(ob, t0, sorted(set(bad))[:6])
 
 
+def handlers_kept_or_diagnosed(fns, consts):
+    """W7: the signal handlers build_properties_callbacks finds in a group of bindings are never dropped by a caller"""
+    from . import c11
+    ob = O._ob('c04_mir_handlers_kept_or_diagnosed', 'uigen::objcode::{ObjectCodeMap::build, build_properties_map, PropertyCodeKind::build, ...}: every caller of build_properties_callbacks',
+               'every MIR body of the lib crate that calls build_properties_callbacks; its result is (props, handlers) with two symbolic handlers; all paths',
+               'on every path the list of handlers found in the group is either part of the returned value (the object\'s own handlers: ObjectCodeMap.callbacks) or an error whose range is the binding of that handler is pushed '
+               'for EACH handler (attached / nested / gadget groups); the property map is always returned; PropertyCodeKind::build reaches the groups only through build_properties_map')
+    t0 = time.time()
+    bad = []
+    try:
+        callers = [f for n, f in fns.items() if not n.endswith('build_properties_callbacks') and any('build_properties_callbacks(' in s for b in f.blocks.values() for s in b)]
+        if not callers:
+            raise M.MirError('no caller of build_properties_callbacks (stale)')
+        npaths = 0
+        for fn in callers:
+            eng = c11.VecSeq(fns, consts, ['handlers'])
+            orig = eng.call
+
+            def call(c_, it, p, orig=orig):
+                if c_.callee.split('::<')[0].split('::')[-1] == 'build_properties_callbacks':
+                    p.heap['#groups'] = p.heap.get('#groups', 0) + 1
+                    return M.Tup([M.Opaque('props'), M.Opaque('handlers')])
+                try:
+                    return orig(c_, it, p)
+                except M.MirError as e:
+                    if 'flow into' in str(e):
+                        return None          # an adaptor over some other collection: left uninterpreted
+                    raise
+            eng.call = call
+            it = eng.interp(fn, {})
+            p0 = M.Path()
+            p0.heap = {}
+            for q in it.run(path=p0, max_paths=400):
+                if q.end != 'return' or M.check(q.pc) == 'unsat' or not q.heap.get('#groups'):
+                    continue
+                npaths += 1
+                ret = scanon(q.ret) if q.ret is not None else ''
+                tr = q.heap.get('#trace', ())
+                kept = 'handlers' in ret
+                diagnosed = [i for i in (0, 1) if any(t.startswith('Diagnostics::push(') and 'Diagnostic::error(' in t and f'binding_node(&handlers[{i}])' in t for t in tr)]
+                if not kept and diagnosed != [0, 1]:
+                    bad.append(f'{fn.name.split("::")[-1] if "impl at" not in fn.name else fn.name[-40:]}: the signal handlers found in a group of bindings are neither returned nor diagnosed one by one (diagnosed: {diagnosed})')
+                if 'props' not in ret:
+                    bad.append(f'{fn.name[-40:]}: the property map of the group is not returned')
+        ob['paths'] = npaths
+        if npaths == 0:
+            bad.append('no path through a caller (stale)')
+        # PropertyCodeKind::build: both class arms go through build_properties_map
+        kb = [f for n, f in fns.items() if re.search(r'objcode\.rs:\d+:\d+: \d+:46>::build$', n)]
+        if len(kb) != 1:
+            raise M.MirError(f'{len(kb)} PropertyCodeKind::build bodies')
+        n_map = sum(1 for b in kb[0].blocks.values() for s in b if re.search(r'= build_properties_map\(', s))
+        if n_map != 2:
+            bad.append(f'PropertyCodeKind::build calls build_properties_map {n_map} times (gadget and object group expected)')
+    except (M.MirError, ValueError) as e:
+        O._finish(ob, t0, ['MIR: ' + str(e)], unknown=True)
+        ob['detail'] = 'MIR: ' + str(e)
+        return ob
+    return O._finish(ob, t0, sorted(set(bad))[:6])
+
+
 def replay(workdir):
     """real CLI: a document with an error must leave stale outputs untouched and create nothing; a dynamic binding must
     appear in the header and not in the .ui, a constant one in the .ui and not in the header"""
@@ -344,6 +405,15 @@ def replay(workdir):
         r, files = gen(os.path.join(workdir, 'attached-' + attr), text)
         if r.returncode != 0 or f'{xml}="7"' not in files.get('doc.ui', ''):
             failed.append({'probe': 'attached-' + attr, 'rc': r.returncode, 'why': f'the accepted constant binding QLayout.{attr}: 7 does not appear in the .ui'})
+    # a signal handler inside a nested / gadget / attached group: connected in the header, or an error and nothing written
+    for name, body, sig in (('handler-in-nested-object', 'QTreeView { id: view; header.onSectionClicked: function(index: int) { view.setEnabled(false) } }', 'sectionClicked'),
+                            ('handler-in-nested-object-block', 'QTableView { id: view; horizontalHeader { stretchLastSection: true; onSectionDoubleClicked: view.setEnabled(false) } }', 'sectionDoubleClicked'),
+                            ('handler-on-object', 'QPushButton { id: btn; onClicked: btn.setEnabled(false) }', 'clicked')):
+        r, files = gen(os.path.join(workdir, name), wrap(body))
+        connected = sig in files.get('uisupport_doc.h', '')
+        refused = r.returncode != 0 and not files
+        if not (refused or (r.returncode == 0 and connected)):
+            failed.append({'probe': name, 'rc': r.returncode, 'files': sorted(files), 'why': f'the handler of {sig} is accepted but connected nowhere (or files were written despite an error)'})
     with open(os.path.join(workdir, 'README.txt'), 'w') as f:
         f.write('qmluic generate-ui --foreign-types /repo/contrib/metatypes Doc.qml in each sub-directory (err-*: with stale outputs in place)\n' + json.dumps(failed, indent=1) + '\n')
     return bool(failed), {'failed_probes': failed}
@@ -355,6 +425,7 @@ def run(res, args):
     binfns = M.parse_functions(bintext)
     obs = [write_gate(binfns, consts), evaluate_coherence(fns, consts), constant_pass_contract(fns, consts),
            c14.predicate_obligation(fns, consts), c14.never_dropped_obligation(fns, consts)]
+    obs.append(handlers_kept_or_diagnosed(fns, consts))
     for ob in obs[3:]:
         ob['name'] = ob['name'].replace('c14_', 'c04_')
     # constant attached layout values (accepted by the constant pass) must reach the .ui: shared with C12
